@@ -360,9 +360,12 @@ def monitor(scn, sobj, rep, sf, ck):
             typ = 0x0E
         got = b"".join(c[1] for c in chunks)
         ok = got == d and not chunks[-1][2] and all(c[2] for c in chunks[:-1])
-        if not ok and typ in (0x11, 0x13) and not chunks[-1][2] and all(c[2] for c in chunks[:-1]):
-            held = [globs[0]] + list(sobj.meta.get("changes", {}).values()) + [globs[-1]]
-            ok = any(got == data_for(g_, typ) for g_ in held)
+        if not ok and typ in (0x11, 0x13) and sobj.meta.get("changes"):
+            # the walk was laid out for the value the platform holds now; a responder that read the property earlier in the session
+            # answers from that value (every single answer has been judged above against all values held) - its chunks need not
+            # line up with this walk
+            rep.count("walks_not_judged_as_a_whole_after_a_change_of_the_property")
+            continue
         rep.count("reassemblies")
         if len(chunks) >= 3:
             rep.count("reassemblies_3plus_chunks")
